@@ -128,10 +128,13 @@ func (r *Result) finish(verifDir, tier string, seed int, t0 time.Time, known []K
 		rules[rule] = map[string]int{"instances": n, "min": r.RuleMin[rule]}
 	}
 	sort.SliceStable(r.Obligs, func(i, j int) bool { return r.Obligs[i].key() < r.Obligs[j].key() })
+	// a finding is identified by rule + construct; the ordinal of a function literal inside its function (`F$2$1`) is not
+	// part of the identity (it changes when a literal is given a name or another literal is added before it): the
+	// enclosing declared function, the site ordinal and the effect named in the construct are
 	kmap := map[string]KnownFinding{}
 	for _, k := range known {
 		if k.Property == r.ID && k.Status == "known" {
-			kmap[k.Rule+" | "+k.Construct] = k
+			kmap[stripLitOrdinals(k.Rule+" | "+k.Construct)] = k
 		}
 	}
 	nviol, nknown, ndis, nund := 0, 0, 0, 0
@@ -156,7 +159,7 @@ func (r *Result) finish(verifDir, tier string, seed int, t0 time.Time, known []K
 				samples = append(samples, *o)
 			}
 		default:
-			if k, ok := kmap[o.key()]; ok && o.Status == stViolation {
+			if k, ok := kmap[stripLitOrdinals(o.key())]; ok && o.Status == stViolation {
 				o.Known = true
 				nknown++
 				problems = append(problems, *o)
@@ -235,4 +238,23 @@ func (r *Result) finish(verifDir, tier string, seed int, t0 time.Time, known []K
 		fmt.Println(l)
 	}
 	return nviol
+}
+
+// stripLitOrdinals removes the `$n` ordinals of function literals from a construct name.
+func stripLitOrdinals(s string) string {
+	var b strings.Builder
+	for i := 0; i < len(s); i++ {
+		if s[i] == '$' {
+			j := i + 1
+			for j < len(s) && s[j] >= '0' && s[j] <= '9' {
+				j++
+			}
+			if j > i+1 {
+				i = j - 1
+				continue
+			}
+		}
+		b.WriteByte(s[i])
+	}
+	return b.String()
 }
